@@ -6,6 +6,7 @@ use may::coroutine;
 use may::sync::{Mutex, RwLock};
 use std::sync::atomic::{AtomicBool, Ordering};
 use std::sync::{Arc, TryLockError};
+use std::time::Duration;
 
 #[derive(Clone, Copy, PartialEq, Debug)]
 enum Hold {
@@ -380,8 +381,98 @@ fn detached_panic(e: &'static Engine, workers: usize, n: usize) {
     e.note("ok");
 }
 
+/// the unwind of the panicking coroutine crosses a suspension: a value on its stack has a destructor that waits
+/// (`how` 0: coroutine::sleep(1 ms), the coroutine goes on on the timer thread; 1: a coroutine::scope whose child is
+/// still running, the owner's scope waits for it while unwinding; 2: yield_now). Afterwards every worker must still
+/// run coroutines normally: `later` coroutines are spawned, parked and cancelled - each must end with Cancel - and one
+/// more panics while holding a Mutex, which must be poisoned.
+fn panic_across_suspension(e: &'static Engine, workers: usize, how: u8, later: usize) {
+    rt_init(workers);
+    struct SlowDrop(u8);
+    impl Drop for SlowDrop {
+        fn drop(&mut self) {
+            match self.0 {
+                0 => coroutine::sleep(Duration::from_millis(1)),
+                _ => coroutine::yield_now(),
+            }
+        }
+    }
+    static PARKED: std::sync::atomic::AtomicU32 = std::sync::atomic::AtomicU32::new(0);
+    e.begin();
+    let p = go!(move || {
+        if how == 1 {
+            coroutine::scope(|s| {
+                unsafe {
+                    s.spawn(|| {
+                        coroutine::yield_now();
+                        coroutine::sleep(Duration::from_millis(1));
+                    });
+                }
+                std::panic::panic_any(31u32);
+            });
+        } else {
+            let _d = SlowDrop(how);
+            std::panic::panic_any(31u32);
+        }
+    });
+    match p.join() {
+        Err(pl) if pl.downcast_ref::<u32>() == Some(&31) => {}
+        _ => e.fail("payload", "the panic payload did not reach the JoinHandle"),
+    }
+    e.quiesce();
+    // later coroutines on every worker: parked, then cancelled
+    let hs: Vec<_> = (0..later)
+        .map(|_| {
+            go!(|| {
+                PARKED.fetch_add(1, Ordering::SeqCst);
+                coroutine::park();
+                coroutine::sleep(Duration::from_millis(1));
+                7u32
+            })
+        })
+        .collect();
+    e.quiesce();
+    if PARKED.load(Ordering::SeqCst) as usize != later {
+        e.fail("later_spawn_stuck", "a coroutine spawned after the panic did not run");
+    }
+    for h in hs.iter() {
+        unsafe { h.coroutine().cancel() };
+    }
+    for (i, h) in hs.into_iter().enumerate() {
+        match h.join() {
+            Err(pl) if pl.downcast_ref::<generator::Error>().is_some() => {}
+            Ok(_) => e.fail("later_cancel_ignored", &format!("later coroutine {} was cancelled while parked but ran on to its end", i)),
+            Err(_) => e.fail("unexpected_panic", "a later coroutine ended with a foreign panic"),
+        }
+    }
+    // and poisoning still works on every worker
+    let m = Arc::new(Mutex::new(0u32));
+    for i in 0..later {
+        let m2 = m.clone();
+        let h = go!(move || {
+            let _g = m2.lock().unwrap_or_else(|p| p.into_inner());
+            std::panic::panic_any(32u32);
+        });
+        let _ = h.join();
+        if !m.is_poisoned() {
+            e.fail("not_poisoned", &format!("later coroutine {} panicked holding the mutex but it is not poisoned", i));
+        }
+    }
+    e.note("ok");
+}
+
 pub fn build(quick: bool) -> Vec<Scenario> {
     let mut v = vec![];
+    {
+        for w in [1usize, 2] {
+            for how in [0u8, 1, 2] {
+                if quick && how == 2 {
+                    continue;
+                }
+                v.push(Scenario::new("C13", "panic_across_suspension", format!("panic.unwind_crosses_suspension.how{}.w{}", how, w), Arc::new(move |e| panic_across_suspension(e, w, how, w + 1))).vt_horizon(100_000_000));
+            }
+        }
+    }
     v.push(Scenario::new("C13", "detached_panic", "detached_panic.n1.w1", Arc::new(move |e| detached_panic(e, 1, 1))));
     v.push(Scenario::new("C13", "detached_panic", "detached_panic.n2.w2", Arc::new(move |e| detached_panic(e, 2, 2))));
     if !quick {
